@@ -303,6 +303,23 @@ func oracleC11(f *sessionFam, w *World, res *Result) []Violation {
 			if !r.Returned && f.drained {
 				l.add("handler-returns", ctx, fmt.Sprintf("%s: handler of %s request #%d still blocked after all clients were gone for %v", r.Client, r.Method, r.ID, f.grace))
 			}
+			// a data request is answered as soon as its payload has been dealt with (nothing holds it back but the
+			// application's own slow listeners): one that was still unanswered when the run was wound up never was
+			if r.Method == "POST" && r.WindUp && r.NWH == 0 {
+				slack := 100 * time.Millisecond
+				for _, re := range f.sc.Reent {
+					if re.Call == "sleep" {
+						slack += time.Duration(re.Ms) * time.Millisecond
+					}
+				}
+				if drainTimeOf(w)-r.T0 > slack {
+					c := "POST/unanswered-at-wind-up"
+					if sp != nil && len(sp.Raw) > 0 {
+						c += "/raw"
+					}
+					l.add("one-response", "none/"+c, fmt.Sprintf("%s: data request #%d (%s) arrived at %v and had no response when the run was wound up at %v", r.Client, r.ID, clip(r.URL, 60), r.T0, drainTimeOf(w)))
+				}
+			}
 			// a pending poll is answered at the latest when the session closes: one that was still unanswered
 			// when the run was wound up, long after its session had closed, never was
 			if ce := closeT[a]; ce != nil && r.Method == "GET" && r.WindUp && r.NWH == 0 && r.T0 < ce.T && ce.Seq < drainSeqOf(w) && drainTimeOf(w)-ce.T >= 100*time.Millisecond && (sp == nil || len(sp.Raw) == 0) {
@@ -517,6 +534,9 @@ func oracleC12(f *sessionFam, w *World, res *Result) []Violation {
 		closes := w.evs(a, "close")
 		// bounded time
 		dl := ac.T + bound + time.Second
+		if len(closes) == 0 && len(w.evs(a, "close-before-attach")) > 0 {
+			continue // Close raced the application's own listener registration: the session closed, nobody was listening yet
+		}
 		if len(closes) == 0 {
 			if simEnd(w) > dl {
 				l.add("close-in-bounded-time", tr, fmt.Sprintf("%s [%s]: Close(false) at %v but the session was still not closed at %v (bound %v)", a, ctx, ac.T, simEnd(w), bound))
